@@ -21,6 +21,10 @@ def impl(case):
         except Exception as e:  # noqa
             return {"exc": type(e).__name__, "msg": str(e)[:200]}
     out["call"] = [safe(lambda: m(x)) for x in xs]
+    # the same strings handed over as one-shot iterators / lists / generators: same weights
+    out["call_iter"] = [safe(lambda: m(iter(x))) for x in xs[:8]]
+    out["call_list"] = [safe(lambda: m(list(x))) for x in xs[:8]]
+    out["call_gen"] = [safe(lambda: m(t for t in x)) for x in xs[:8]]
     try:
         er = m.epsremove
         out["epsremove"] = common.enc_wfsa(er, R)
@@ -123,7 +127,7 @@ def run(ctx):
             if res is None or "exc" in res:
                 semantic.append(_viol(c, hs, "worker", None, None, res))
                 continue
-            for name in ("call", "epsremove_call"):
+            for name in ("call", "epsremove_call", "call_iter", "call_list", "call_gen"):
                 if name not in res:
                     continue
                 for x, v, o, cv in zip(c["xs"], res[name], vals, conv):
